@@ -9,6 +9,14 @@
 //      `Circuit.read_ispd` and prints the re-read circuit (or the exception class); compared with
 //      `Ispd.read` (ops `readback` / `read`).  A stream of *mutated* files (written by this harness
 //      from the parsed records) exercises the reader outside the writer's image.
+// Text level (Model/IspdText.lean): for every unmutated case the *whole text* of the five exported files is
+// compared line by line with `auxText/nodesText/plText/netsText/sclText` (op `exporttext`), and the Python
+// result with `Text.readIspd` on the model's own file system (`readbackfs`).  The mutated record files are
+// also given to the model as raw text (`fsreset/file/l/readispd`), and a stream `tmut` applies *textual*
+// mutations (comments, blank lines, padding, dropped/extra/junk tokens, glued colons, upper-cased keys,
+// duplicated headers, damaged .aux files; opened by .aux path, by prefix without suffix, or by directory).
+// `write_placement`/`load_placement` of coloquinte.py: stream through c20_reader.py jobs `wplp` (write, then
+// load into a blanked circuit) and `lp` (load a harness-made .pl with /FIXED markers, missing cells, …).
 // Direct oracle (in-domain, unmutated cases): the re-read circuit equals the original field by field
 // (sizes, fixed flags, positions, orientations, connectivity, pin offsets, row rectangles, row
 // orientations) and the wirelength computed independently in Python on the re-read circuit equals
@@ -53,6 +61,43 @@ static std::vector<std::string> toks(std::string line, bool colonIsSpace) {
 }
 
 static bool startsWith(const std::string &s, const char *p) { return s.rfind(p, 0) == 0; }
+
+// a line or path as one token of the driver protocol (see lean/Driver/C20.lean)
+static std::string esc(const std::string &l) {
+  if (l.empty()) return "\\e";
+  std::string r;
+  for (unsigned char c : l) {
+    if (c == ' ') r += "\\s";
+    else if (c == '\t') r += "\\t";
+    else if (c == '\\') r += "\\\\";
+    else if (c < 33 || c > 126) r += "\\u" + std::to_string((int)c) + ";";
+    else r += (char)c;
+  }
+  return r;
+}
+
+static std::vector<std::string> rawLines(const std::string &path) {
+  std::vector<std::string> r;
+  std::ifstream in(path);
+  std::string line;
+  while (std::getline(in, line)) r.push_back(line);
+  return r;
+}
+
+static void writeLines(const std::string &path, const std::vector<std::string> &ls) {
+  std::ofstream o(path);
+  for (auto &l : ls) o << l << "\n";
+}
+
+static void tagged(std::ostream &os, const char *tag, const std::vector<std::string> &ls) {
+  for (auto &l : ls) os << tag << " " << esc(l) << "\n";
+}
+
+// `file`/`l` ops that give one real file to the model's file system
+static void fsFile(std::ostream &ops, const std::string &path) {
+  ops << "file " << esc(path) << "\n";
+  for (auto &l : rawLines(path)) ops << "l " << esc(l) << "\n";
+}
 
 // exact value of a decimal token ([-]ddd[.ddd][e[+-]dd]) as a reduced fraction "num/den"
 static std::string decToRat(const std::string &t) {
@@ -233,7 +278,11 @@ static bool inDomain(const Circuit &c) {
 // ------------------------------------------------------------------ cases
 struct Case {
   std::string id, stream;
-  std::string implA;      // what the C++ half produced (records of the exported files)
+  // impl.txt of the case: literal text produced by the C++ half, interleaved with blocks printed by Python
+  std::vector<std::pair<bool, std::string>> segs;   // (is a Python block id, text or id)
+  void lit(const std::string &t) { segs.emplace_back(false, t); }
+  void blk(const std::string &id) { segs.emplace_back(true, id); }
+  std::vector<std::string> oracleBlocks;   // Python blocks that must reproduce the original circuit
   std::string input;      // circuit text, for replays
   bool oracle = false;    // in-domain, unmutated: the property applies
   bool hasCircuit = false;
@@ -449,6 +498,40 @@ static std::string replayInput(const std::string &path) {
   return r;
 }
 
+// ------------------------------------------------------------------ textual mutations (stream `tmut`)
+static std::string textMutate(std::map<std::string, std::vector<std::string>> &files, vh::Rng &g) {
+  static const char *names[] = {"nodes", "nets", "pl", "scl", "aux"};
+  int fi = g.range(0, 9);
+  std::string fn = names[fi >= 5 ? g.range(0, 3) : fi];
+  std::vector<std::string> &ls = files[fn];
+  auto pickLine = [&]() { return (size_t)g.range(0, (long long)ls.size() - 1); };
+  auto tokens = [&](const std::string &l) { return toks(l, false); };
+  auto join = [&](const std::vector<std::string> &t, const std::string &sep) { std::string r; for (size_t i = 0; i < t.size(); ++i) r += (i ? sep : "") + t[i]; return r; };
+  int m = g.range(0, 13);
+  if (ls.empty()) { ls.push_back("# only line"); return fn + ":was-empty"; }
+  switch (m) {
+    case 0: { static const char *c[] = {"# a comment", "#", "", "   ", "\t# indented comment", " \t "}; ls.insert(ls.begin() + g.range(0, (long long)ls.size()), c[g.range(0, 5)]); return "insert-comment-or-blank"; }
+    case 1: { size_t i = pickLine(); ls[i] = std::string(g.chance(1, 2) ? "  \t" : " ") + ls[i] + (g.chance(1, 2) ? " \t " : "\t"); return "pad-whitespace"; }
+    case 2: { size_t i = pickLine(); ls.insert(ls.begin() + i, ls[i]); return "duplicate-line"; }
+    case 3: { size_t i = pickLine(); ls.erase(ls.begin() + i); return "drop-line"; }
+    case 4: { size_t i = pickLine(); auto t = tokens(ls[i]); if (t.size() > 0) { t.erase(t.begin() + g.range(0, (long long)t.size() - 1)); ls[i] = join(t, g.chance(1, 2) ? " " : "\t"); } return "drop-token"; }
+    case 5: {
+      size_t i = pickLine(); auto t = tokens(ls[i]);
+      static const char *junk[] = {"abc", "1.5", "+7", "-0", "0x10", "1e3", "007", "--1", "1.", ".5", "5.", "1e+2", "2E-1", "-.25", "e5", "1e", ".", "+", "-", "12a", "N", "FS", "terminal", ":", "#", "1.5e1", "+1e+1", "-3.e0"};
+      if (t.size() > 0) { t[g.range(0, (long long)t.size() - 1)] = junk[g.range(0, 27)]; ls[i] = join(t, " "); }
+      return "junk-token";
+    }
+    case 6: { size_t i = pickLine(); for (char &ch : ls[i]) ch = g.chance(1, 2) ? (char)toupper((unsigned char)ch) : (char)tolower((unsigned char)ch); return "change-case"; }
+    case 7: { size_t i = pickLine(); std::string r; for (size_t j = 0; j < ls[i].size(); ++j) { if (ls[i][j] == ':') { while (!r.empty() && (r.back() == ' ' || r.back() == '\t')) r.pop_back(); r += ':'; while (j + 1 < ls[i].size() && ls[i][j + 1] == ' ') ++j; } else r += ls[i][j]; } ls[i] = r; return "glue-colon"; }
+    case 8: { size_t i = pickLine(), j = pickLine(); std::swap(ls[i], ls[j]); return "swap-lines"; }
+    case 9: { size_t i = pickLine(); static const char *x[] = {" X", " terminal", " /FIXED", " 7", " : 3", "\tterminal_NI"}; ls[i] += x[g.range(0, 5)]; return "extra-token"; }
+    case 10: { if (fn == "nodes" || fn == "pl") { size_t i = pickLine(); auto t = tokens(ls[i]); if (t.size() > 1) { t[1] = g.chance(1, 2) ? "1_0" : "1__0"; ls[i] = join(t, " "); } } return "underscore-int"; }
+    case 11: { if (fn == "aux") { static const char *x[] = {" extra.txt", " other.nodes", " b.pl", "\nsecond.line", " t.nodes"}; std::string add = x[g.range(0, 4)]; if (add[0] == '\n') ls.push_back(add.substr(1)); else ls[0] += add; } else { ls.insert(ls.begin(), "UCLA again 1.0"); } return fn == "aux" ? "aux-extra-name" : "second-ucla-line"; }
+    case 12: { if (fn == "aux") { auto t = tokens(ls[0]); if (t.size() > 2) { t.erase(t.begin() + 2 + g.range(0, (long long)t.size() - 3)); ls[0] = join(t, " "); } return "aux-drop-name"; } size_t i = pickLine(); auto t = tokens(ls[i]); if (t.size() >= 2) ls[i] = t[0] + " " + t[1]; return "two-tokens"; }
+    default: { if (fn == "nodes") { ls.push_back("  dummy" + std::to_string(g.range(0, 3)) + (g.chance(1, 2) ? " terminal" : "")); return "dummy-node"; } ls.push_back(ls[pickLine()]); return "repeat-line-at-end"; }
+  }
+}
+
 int main(int argc, char **argv) {
   vh::Args a = vh::parseArgs(argc, argv);
   vh::Out out(a.out);
@@ -462,12 +545,16 @@ int main(int argc, char **argv) {
   int nBig = a.search() ? 0 : a.quick() ? 40 : 1200;
   int nEdge = a.search() ? 0 : a.quick() ? 40 : 800;
   int nMut = a.search() ? 0 : a.quick() ? 160 : 8000;
+  int nTextMut = a.search() ? 0 : a.quick() ? 400 : 20000;
+  int nLoadPl = a.search() ? 0 : a.quick() ? 80 : 3000;
 
   std::vector<Case> cases;
   std::ofstream jobs(a.out + "/pyjobs.txt");
   jobs << "bindings\n";
   long long k = 0;
-  auto addCase = [&](const std::string &stream, const Circuit &c, bool mut, vh::Rng &g) {
+  enum Mode { PLAIN = 0, RECMUT = 1, TEXTMUT = 2, LOADPL = 3 };
+  auto addCase = [&](const std::string &stream, const Circuit &c, int mode, vh::Rng &g) {
+    const bool mut = mode == RECMUT;
     Case cs;
     cs.id = std::to_string(k);
     cs.stream = stream;
@@ -481,16 +568,40 @@ int main(int argc, char **argv) {
     Files f = parseFiles(prefix);
     std::ostringstream ia;
     bool dom = inDomain(c);
-    if (!mut) {
+    if (mode == PLAIN) {
       out.ops << "export\n";
       printFiles(ia, f);
       ia << "indomain " << (int)dom << "\n";
       out.ops << "readback\n";
+      cs.lit(ia.str());
+      cs.blk(cs.id);
       cs.oracle = dom;
       cs.hasCircuit = true;
       cs.circuit = c;
       cs.hpwl = c.hpwl();
-    } else {
+      if (dom) cs.oracleBlocks.push_back(cs.id);
+      jobs << cs.id << " " << prefix << ".aux\n";
+      // text level: the five files, whole text; the same Python result against the model's file-level reader
+      std::ostringstream it;
+      out.ops << "exporttext " << esc(prefix) << "\n";
+      tagged(it, "aux", rawLines(prefix + ".aux"));
+      tagged(it, "nodes", rawLines(prefix + ".nodes"));
+      tagged(it, "pl", rawLines(prefix + ".pl"));
+      tagged(it, "nets", rawLines(prefix + ".nets"));
+      tagged(it, "scl", rawLines(prefix + ".scl"));
+      cs.lit(it.str());
+      out.ops << "readbackfs " << esc(prefix) << "\n";
+      cs.blk(cs.id);
+      // write_placement, then load_placement into a blanked copy
+      if (stream != "big") {
+        out.ops << "writeplacement\nloadback\n";
+        jobs << "wplp " << cs.id << " " << prefix << ".aux " << dir << "/w.sol.pl\n";
+        cs.blk(cs.id + ".wp");
+        cs.blk(cs.id + ".lp");
+        if (dom) cs.oracleBlocks.push_back(cs.id + ".lp");
+        out.count("write-load-placement");
+      }
+    } else if (mode == RECMUT) {
       std::string what;
       mutate(f, g, what);
       out.count("mutation:" + what);
@@ -499,13 +610,87 @@ int main(int argc, char **argv) {
       out.ops << "files\n";
       printFiles(out.ops, f);
       out.ops << "endfiles\nread\n";
+      cs.blk(cs.id);
+      jobs << cs.id << " " << prefix << ".aux\n";
+      // the same files as raw text
+      out.ops << "fsreset\n";
+      for (const char *ext : {".aux", ".nodes", ".nets", ".pl", ".scl"}) fsFile(out.ops, prefix + ext);
+      out.ops << "readispd exists " << esc(prefix + ".aux") << "\n";
+      cs.blk(cs.id);
+    } else if (mode == TEXTMUT) {
+      // textual mutation of the exported files, in a directory of their own: <dir>/t/t.*
+      const std::string tdir = dir + "/t";
+      mkdirs(tdir);
+      std::map<std::string, std::vector<std::string>> files;
+      for (const char *ext : {"nodes", "nets", "pl", "scl"}) files[ext] = rawLines(prefix + "." + ext);
+      bool absNames = g.chance(1, 4);
+      std::string an = absNames ? tdir + "/t" : std::string("t");
+      files["aux"] = {"RowBasedPlacement : " + an + ".nodes " + an + ".nets " + an + ".pl " + an + ".scl"};
+      int nm = g.chance(1, 3) ? 2 : 1;
+      for (int m = 0; m < nm; ++m) {
+        std::string what = textMutate(files, g);
+        out.count("textmut:" + what);
+      }
+      std::vector<std::string> entries;
+      for (auto &kv : files) { writeLines(tdir + "/t." + kv.first, kv.second); entries.push_back("t." + kv.first); }
+      int kind = g.range(0, 5);   // 0-2 the .aux path, 3 the prefix without suffix, 4-5 the directory
+      bool extraAux = kind >= 4 && g.chance(1, 2);
+      if (extraAux) { writeLines(tdir + "/a.aux", {"nothing here"}); entries.push_back("a.aux"); }
+      if (kind == 5 && extraAux && g.chance(1, 3)) {   // two .aux files, none with the directory's name
+        rename((tdir + "/t.aux").c_str(), (tdir + "/b.aux").c_str());
+        for (auto &e : entries) if (e == "t.aux") e = "b.aux";
+        out.count("open:directory-no-default-aux");
+      }
+      out.ops << "fsreset\n";
+      for (auto &e : entries) fsFile(out.ops, tdir + "/" + e);
+      std::string arg;
+      if (kind <= 2) { arg = tdir + "/t.aux"; out.ops << "readispd exists " << esc(arg) << "\n"; out.count("open:aux-path"); }
+      else if (kind == 3) { arg = tdir + "/t"; out.ops << "readispd missing " << esc(arg) << "\n"; out.count("open:prefix"); }
+      else {
+        arg = tdir;
+        if (g.chance(1, 3)) arg += "/";
+        out.ops << "readispd dir " << esc(arg);
+        std::sort(entries.begin(), entries.end());
+        for (auto &e : entries) out.ops << " " << esc(e);
+        out.ops << "\n";
+        out.count(extraAux ? "open:directory-two-aux" : "open:directory");
+      }
+      cs.blk(cs.id);
+      jobs << cs.id << " " << arg << "\n";
+    } else {
+      // LOADPL: read the exported files, then load a hand-made placement file
+      jobs << cs.id << " " << prefix << ".aux\n";
+      out.ops << "readbackfs " << esc(prefix) << "\n";
+      cs.blk(cs.id);
+      std::vector<std::string> pl = {"UCLA pl 1.0", "# made by h_C20", ""};
+      std::string what = "plain";
+      int m = g.range(0, 7);
+      for (int i = 0; i < c.nbCells(); ++i) {
+        std::string o = toString((CellOrientation)g.range(0, 7));
+        std::string name = "o" + std::to_string(i);
+        if (m == 1 && i == 0) { what = "missing-cell"; continue; }
+        if (m == 2 && i == 0) { what = "bad-orientation"; o = "R90"; }
+        if (m == 3 && i == 0) { what = "unknown-cell"; name = "zz"; }
+        if (m == 4 && i == 0) { what = "three-tokens"; pl.push_back(name + " 1 2"); continue; }
+        if (m == 5 && i == 0) { what = "float-coordinate"; pl.push_back(name + " 1.5 2 : N"); continue; }
+        std::string fixedMark = g.chance(1, 3) ? " /FIXED" : "";
+        std::string sep = g.chance(1, 2) ? "\t" : "  ";
+        pl.push_back(name + sep + std::to_string(g.range(-99, 99)) + sep + std::to_string(g.range(-99, 99)) + (g.chance(1, 2) ? "\t: " : " :") + o + fixedMark);
+        if (m == 6 && i == 0) { what = "duplicate-line"; pl.push_back(name + " 7 7 : FW"); }
+      }
+      if (m == 7) { what = "shuffled"; for (size_t i = pl.size(); i > 4; --i) std::swap(pl[i - 1], pl[3 + g.range(0, (long long)i - 4)]); }
+      out.count("loadpl:" + what);
+      writeLines(dir + "/h.pl", pl);
+      out.ops << "fsreset\n";
+      fsFile(out.ops, dir + "/h.pl");
+      out.ops << "loadplacement " << esc(dir + "/h.pl") << "\n";
+      jobs << "lp " << cs.id << " " << prefix << ".aux " << dir << "/h.pl\n";
+      cs.blk(cs.id + ".lp");
     }
-    cs.implA = ia.str();
-    jobs << cs.id << " " << prefix << ".aux\n";
     // distribution
     out.count("stream:" + stream);
     out.count(dom ? "in-domain" : "out-of-domain");
-    if (!mut) {
+    if (mode == PLAIN) {
       for (int i = 0; i < c.nbCells(); ++i) out.count("cell-orient:" + toString(c.cellOrientation_[i]));
       for (auto &r : c.rows_) out.count("row-orient:" + toString(r.orientation));
       bool nonN = false, rowNonN = false, allZero = true;
@@ -536,9 +721,9 @@ int main(int argc, char **argv) {
     for (auto &t : texts) {
       vh::Rng g = vh::Rng::forCase(a.seed, k);
       Circuit c(0);
-      if (parseCircuit(t, c)) { addCase("corpus", c, false, g); out.count("corpus-cases"); }
+      if (parseCircuit(t, c)) { addCase("corpus", c, PLAIN, g); out.count("corpus-cases"); }
     }
-    if (!a.replay.empty()) nGen = nEight = nBig = nEdge = nMut = 0;
+    if (!a.replay.empty()) nGen = nEight = nBig = nEdge = nMut = nTextMut = nLoadPl = 0;
   }
   for (int i = 0; i < nGen; ++i) {
     vh::Rng g = vh::Rng::forCase(a.seed, k);
@@ -547,17 +732,17 @@ int main(int argc, char **argv) {
     Circuit c = vc::genCircuit(g, o);
     int mode = g.range(0, 3);  // 0 as generated, 1 orientations among all eight (cells and rows), 2 unplaced, 3 as generated
     Circuit d = rebuild(c, mode != 2, mode == 1 ? 1 : 0, g);
-    addCase("gen", d, false, g);
+    addCase("gen", d, PLAIN, g);
   }
   for (int i = 0; i < nEight; ++i) {
     vh::Rng g = vh::Rng::forCase(a.seed, k);
     long long mag = g.chance(1, 3) ? 99999 : g.range(1, 60);
-    addCase("eight", smallCircuit(g, mag, true), false, g);
+    addCase("eight", smallCircuit(g, mag, true), PLAIN, g);
   }
   for (int i = 0; i < nBig; ++i) {  // beyond six significant digits: ties the number formatting of the model (fmt6)
     vh::Rng g = vh::Rng::forCase(a.seed, k);
     static const long long mags[] = {100001, 250000, 1000001, 3000000, 40000000};
-    addCase("big", smallCircuit(g, mags[g.range(0, 4)], false), false, g);
+    addCase("big", smallCircuit(g, mags[g.range(0, 4)], false), PLAIN, g);
   }
   for (int i = 0; i < nEdge; ++i) {  // outside the domain: the reader must fail (or drop things) as the model says
     vh::Rng g = vh::Rng::forCase(a.seed, k);
@@ -579,12 +764,20 @@ int main(int argc, char **argv) {
       w.push_back(1.0f);
       c.setNets(l, c.pinCells_, c.pinXOffsets_, c.pinYOffsets_, w);
     }
-    addCase("edge", c, false, g);
+    addCase("edge", c, PLAIN, g);
   }
   for (int i = 0; i < nMut; ++i) {
     vh::Rng g = vh::Rng::forCase(a.seed, k);
     Circuit c = g.chance(1, 2) ? smallCircuit(g, 40, g.chance(1, 2)) : vc::genCircuit(g, vc::GenOpts());
-    addCase("mut", c, true, g);
+    addCase("mut", c, RECMUT, g);
+  }
+  for (int i = 0; i < nTextMut; ++i) {
+    vh::Rng g = vh::Rng::forCase(a.seed, k);
+    addCase("tmut", smallCircuit(g, g.chance(1, 4) ? 2000 : 12, g.chance(1, 3)), TEXTMUT, g);
+  }
+  for (int i = 0; i < nLoadPl; ++i) {
+    vh::Rng g = vh::Rng::forCase(a.seed, k);
+    addCase("loadpl", smallCircuit(g, 12, g.chance(1, 3)), LOADPL, g);
   }
   jobs.close();
   out.ops.flush();
@@ -642,17 +835,32 @@ int main(int argc, char **argv) {
 
   // ---- assemble impl.txt and evaluate the oracle
   for (auto &cs : cases) {
-    out.impl << "case " << cs.id << "\n" << cs.implA;
-    auto it = blocks.find(cs.id);
+    out.impl << "case " << cs.id << "\n";
     std::vector<std::string> none;
-    const std::vector<std::string> &b = it == blocks.end() ? none : it->second;
-    if (b.empty()) out.impl << "no-python-output\n";
-    for (auto &l : b) out.impl << l << "\n";
+    auto block = [&](const std::string &id) -> const std::vector<std::string> & {
+      auto it = blocks.find(id);
+      return it == blocks.end() ? none : it->second;
+    };
+    for (auto &sg : cs.segs) {
+      if (!sg.first) { out.impl << sg.second; continue; }
+      const std::vector<std::string> &b = block(sg.second);
+      bool silent = sg.second.size() > 3 && (sg.second.substr(sg.second.size() - 3) == ".wp" || sg.second.substr(sg.second.size() - 3) == ".lp");
+      if (b.empty() && !silent) out.impl << "no-python-output\n";
+      for (auto &l : b) out.impl << l << "\n";
+    }
+    const std::vector<std::string> &b = block(cs.id);
     if (!b.empty() && startsWith(b[0], "throw:")) out.count("python:" + b[0]); else out.count("python:ok");
+    if (cs.stream == "loadpl") {
+      const std::vector<std::string> &lb = block(cs.id + ".lp");
+      out.count(!lb.empty() && startsWith(lb[0], "throw:") ? "load_placement:" + lb[0] : "load_placement:ok");
+    }
     if (cs.oracle) {
-      Reread r = parseReread(b);
-      std::string why = compareRoundTrip(cs.circuit, cs.hpwl, r);
-      if (!why.empty()) out.fail(cs.id, why, cs.input);
+      for (auto &bid : cs.oracleBlocks) {
+        Reread r = parseReread(block(bid));
+        std::string why = compareRoundTrip(cs.circuit, cs.hpwl, r);
+        if (!why.empty())
+          out.fail(cs.id, (bid == cs.id ? "" : "after write_placement + load_placement into a blanked circuit: ") + why, cs.input);
+      }
     }
   }
   out.notes.push_back("python step: " + std::string(rc == 0 ? "ok" : "failed") + "; repo " + C20_REPO_DIR);
